@@ -42,6 +42,22 @@ Theorem c11_roundtrip_mpd : forall name c0 c f,
   exists e, mpd_tokenize (send_bytes c) = Some [name; e] /\ mpd_parse_filter e = Some (shape_of f, []).
 Proof. exact (c11_roundtrip false). Qed.
 
+(* Command::argument accepts the filter exactly as rendered whenever no value holds LF or NUL (where it
+   panics, as documented); so the round trip needs no hypothesis about sending: *)
+Theorem c11_roundtrip_clean : forall lenient name c0 f,
+  wf_bytes name -> build name = inr c0 ->
+  built f -> Forall value_ok (leaves f) ->
+  Forall (fun tv => Forall (fun x => x < 256 /\ x <> LF /\ x <> 0) (snd tv)) (leaves f) ->
+  exists c e, argument_filter c0 f = Sent c /\
+              mpd_tokenize (send_bytes c) = Some [name; e] /\
+              mpd_parse_filter_gen lenient e = Some (shape_of f, []).
+Proof.
+  intros lenient name c0 f Wn Hb Hf Hv Hc.
+  pose proof (sent_when_clean c0 f (built_wf f Hf) Hv Hc) as S.
+  eexists. exists (inner_text f). split; [exact S|].
+  apply (filter_roundtrip lenient name c0 _ f Wn Hb (built_wf f Hf) Hv S).
+Qed.
+
 (* tags: every named variant, and everything Tag::try_from accepts, is an MPD word *)
 Theorem c11_tags_valid : (forall v, valid_tagb (Named v) = true) /\
   (forall s t, wf_bytes s -> tag_try_from s = TagOk t -> valid_tagb t = true).
@@ -128,6 +144,7 @@ Print Assumptions c11_and_inv.
 Print Assumptions c11_render_never_panics.
 Print Assumptions c11_roundtrip.
 Print Assumptions c11_roundtrip_mpd.
+Print Assumptions c11_roundtrip_clean.
 Print Assumptions c11_tags_valid.
 Print Assumptions c11_render_is_outer_escape.
 Print Assumptions c11_unquote_layers.
